@@ -7,6 +7,7 @@ import (
 	"os"
 	"path/filepath"
 	"sort"
+	"strings"
 	"sync"
 	"testing"
 	"time"
@@ -301,7 +302,16 @@ func runCase(c Case) (res vt.Result, fail *vt.Fail) {
 				dirty = true
 				continue
 			}
-			if err := gen.PushNode(ctx, s, d.Nodes[op.N]); err != nil {
+			if i%4 == 2 && d.IsManifest(op.N) {
+				// the pushed descriptor carries a reference name of its own (as one
+				// resolved by tag from another layout does, e.g. in CopyGraph)
+				pd := d.Nodes[op.N].PushDesc()
+				pd.Annotations = map[string]string{ocispec.AnnotationRefName: "pushed-as", "k": "p"}
+				if err := s.Push(ctx, pd, bytes.NewReader(d.Nodes[op.N].Bytes)); err != nil {
+					return res, vt.Failf("C08/push-failed", "%s: %v", when, err)
+				}
+				classes["pushed-with-a-ref-name-annotation"] = true
+			} else if err := gen.PushNode(ctx, s, d.Nodes[op.N]); err != nil {
 				return res, vt.Failf("C08/push-failed", "%s: %v", when, err)
 			}
 			stored[op.N] = true
@@ -436,14 +446,35 @@ func runCase(c Case) (res vt.Result, fail *vt.Fail) {
 			fmt.Sscan(op.Last, &k)
 			var wg sync.WaitGroup
 			errs := make([]error, k)
+			var saveErr error
+			if !c.AutoSave {
+				// without automatic saving the caller saves - here while others are
+				// still tagging (tags carry a few KiB so that a save takes a moment);
+				// the quiescent SaveIndex before the next observation must write
+				// whatever a save in flight missed
+				wg.Add(1)
+				go func() {
+					defer wg.Done()
+					for r := 0; r < 6 && saveErr == nil; r++ {
+						saveErr = s.SaveIndex()
+					}
+				}()
+			}
 			for g := 0; g < k; g++ {
 				wg.Add(1)
 				go func(g int) {
 					defer wg.Done()
-					errs[g] = s.Tag(ctx, d.Nodes[op.N].Desc, fmt.Sprintf("burst-%d-%d", i, g))
+					bd := d.Nodes[op.N].Desc
+					if !c.AutoSave {
+						bd.Annotations = map[string]string{"pad": strings.Repeat("p", 6000)}
+					}
+					errs[g] = s.Tag(ctx, bd, fmt.Sprintf("burst-%d-%d", i, g))
 				}(g)
 			}
 			wg.Wait()
+			if saveErr != nil {
+				return res, vt.Failf("C08/saveindex-failed", "%s: SaveIndex during a burst of tags: %v", when, saveErr)
+			}
 			for g, err := range errs {
 				if err != nil {
 					return res, vt.Failf("C08/tag-failed", "%s: concurrent Tag %d: %v", when, g, err)
@@ -549,6 +580,7 @@ func keys(m map[string]bool) []string {
 }
 
 func TestMain(m *testing.M) {
+	vt.ReplayRepeat["main"] = 30
 	vt.Main(m, "C08", vt.NewLeg("main", 2500, 4000, 16, genCase, runCase))
 }
 
